@@ -11,7 +11,10 @@ TEXTS = {
                 "create_cache_of_grandparents / all_grandparents return — EVERY fuel, insertion order, id assignment and DAG shape — names, "
                 "parents, children and flags are untouched and every term's ancestor cache is exactly clos_trans of the direct-parent "
                 "relation (invariant: every cache is empty or exact; the parents_cached heuristic is sound because a term with parents has a "
-                "non-empty closure); never the term itself on any ranked (acyclic) graph; Arena::insert and every successful add_parent keep "
+                "non-empty closure); never the term itself: connect_all_terms RETURNS ONLY ON ACYCLIC GRAPHS "
+                "(C01_connect_returns_only_on_acyclic_graphs — on a cycle the real recursion does not terminate, the transcription runs out "
+                "of fuel), so irreflexivity needs no assumption on the input; every ontology any Builder script produces has exact caches "
+                "(C01_builder_ontologies_exact); Arena::insert and every successful add_parent keep "
                 "ids unique, links resolving and children the exact inverse of parents, add_parent adds exactly one link. Plus soundness of the "
                 "executable statement closure_ok, which the check evaluates inside Coq on the real crate's observation of every generated "
                 "ontology (Builder, binary v1-v3, hp.obo, sub_ontology paths); the transcription is diffed against the crate.",
@@ -27,7 +30,10 @@ TEXTS = {
                 "repetitions) leaves a term with an annotation iff it had it before or a direct fact sits at the term or below it. The "
                 "hypotheses of these theorems hold of every acyclic ontology with exact caches (C02_propagation_hypotheses_hold; exact caches "
                 "are proved of every Builder-built ontology), and loading all records of a kind gives every term exactly the ids with a direct "
-                "fact at the term or at a descendant (C02_model_record_phase). Record side: annotate_* adds the term to the record's direct "
+                "fact at the term or at a descendant (C02_model_record_phase). THE PROPERTY FOR EVERY BUILDER SCRIPT "
+                "(C02_builder_annotations_exact): whatever calls are made in whatever order, failing ones included, every term of the finished "
+                "ontology carries, per kind, exactly the ids with a direct annotation at the term or at one of its descendants, and the "
+                "is_a graph is acyclic. Record side: annotate_* adds the term to the record's direct "
                 "set only. Plus "
                 "soundness of the executable statement kind_ok / recs_ok, evaluated on the real crate's observation for the three kinds "
                 "separately (records vs supplied facts, id-map probes for kind leakage); the transcription is diffed against the crate.",
@@ -125,7 +131,9 @@ TEXTS = {
                 "term at the same position with the same id, name (cut at the limit), obsolete flag, replacement, direct parents, children and "
                 "ancestor cache. ANNOTATIONS (C07_reload_keeps_annotations): if moreover the is_a graph is acyclic and every term of the source "
                 "carries exactly the annotations with a direct fact at the term or one of its descendants (the C02 statement), then after the "
-                "reload every term carries, for each kind, exactly the same set, for any permutation of the records in the file. PARTIAL: "
+                "reload every term carries, for each kind, exactly the same set, for any permutation of the records in the file. ALL THESE "
+                "HYPOTHESES ARE DISCHARGED for Builder-built ontologies (C07_builder_ontologies_roundtrip: any script, any call order, failing "
+                "calls included). PARTIAL: "
                 "equality of the record maps and of the information content after reload is not yet a theorem (IC is a function of the counts: "
                 "C03); it is decided per generated "
                 "ontology by running the encode/decode transcription against as_bytes/from_bytes (bytes compared record-sorted, reload dumped "
